@@ -46,6 +46,7 @@ def csv_cases(draw, max_len=8):
         "only_best": draw(st.booleans()),
         "values": values,
         "batches": draw(st.lists(st.integers(1, 4), min_size=max_len, max_size=max_len)),
+        "prescored": draw(st.sampled_from([0, 0, 1, 2, 3])),
     }
 
 
